@@ -172,6 +172,10 @@ def cases(draw):
                       'soe': draw(st.booleans())})
     case = {'tasks': tasks}
     if draw(st.integers(0, 3)) == 0:
+        # absolute paths (and absolute task sandboxes) live on another file system than the
+        # sandbox hierarchy, as node-local scratch does
+        case['other_fs'] = True
+    if draw(st.integers(0, 3)) == 0:
         # pilot-level staging (Pilot.stage_in) of a few files before the tasks are submitted
         case['pre'] = [[draw(st.sampled_from(['pilot', 'pilot', 'session', 'resource', 'rel', 'rel'])),
                         draw(st.sampled_from(['shared.dat', 'cfg/params.dat', 'data/in/x.bin']))]
@@ -246,15 +250,24 @@ class Layout(object):
     <workdir>/radical.pilot.sandbox/<session>/<pilot>/<task>; client:// = the
     client's working directory; endpoint:// = file system root"""
 
-    def __init__(self, root, sid):
+    def __init__(self, root, sid, other_fs=False):
         self.client   = os.path.join(root, 'client')
         self.remote   = os.path.join(root, 'remote')
         self.other    = os.path.join(root, 'other')        # "somewhere else" for absolute paths
+        self.other_fs = False
+        if other_fs and boot.other_fs_root():
+            # "somewhere else" is on another file system than the sandboxes (node-local scratch)
+            self.other    = boot.other_fs_dir('c11.')
+            self.other_fs = True
         self.resource = os.path.join(self.remote, 'radical.pilot.sandbox')
         self.session  = os.path.join(self.resource, sid)
         self.pilot    = os.path.join(self.session, pipe.PID)
         for d in (self.client, self.remote, self.other):
-            os.makedirs(d)
+            os.makedirs(d, exist_ok=True)
+
+    def close(self):
+        if self.other_fs:
+            shutil.rmtree(self.other, ignore_errors=True)
 
     def task_sandbox(self, uid, variant):
         if variant == 1: return os.path.join(self.pilot, 'sbox_' + uid), 'sbox_' + uid
@@ -297,6 +310,8 @@ def _materialise(lay, tsbox, direction, ti, specs):
             via = ch.get('via') if ch.get('via') in ('pilot', 'session', 'resource') else 'pilot'
             ok  = ('copy', 'link') if direction == 'in' else ('copy', 'link', 'move')
             act = ch.get('act') if ch.get('act') in ok else 'copy'
+            if lay.other_fs and act == 'link':
+                act = 'copy'                          # hard links do not cross file systems
             td  = [x for x in (ch.get('td') or []) if x in DIRS][:2]
             cnt = _content(tag, 'file')
             mid_s, mid_p = _place(lay, tsbox, via, ['stage'], tag + '.mid', None, False)
@@ -317,6 +332,8 @@ def _materialise(lay, tsbox, direction, ti, specs):
             continue
 
         sp = _sanitise(raw if isinstance(raw, dict) else {}, direction)
+        if lay.other_fs and sp['act'] == 'link':
+            sp = dict(sp, act='copy')                 # hard links do not cross file systems
         # defaults for relative paths (only generated where docs and code agree)
         if direction == 'in':
             rel_src = lay.client                      # client-side only
@@ -499,7 +516,10 @@ def _check_targets(res, clause, exps, label):
 def _run(case, res, root, box):
 
     sid = 'rp.session.verif.0000'
-    lay = Layout(root, sid)
+    lay = Layout(root, sid, other_fs=bool(case.get('other_fs')))
+    box.append(lay)
+    if lay.other_fs:
+        res.label('absolute_paths_on_another_file_system')
     pre = [(str(x[0]), str(x[1])) for x in (case.get('pre') or [])
            if isinstance(x, (list, tuple)) and len(x) == 2 and x[0] in ('pilot', 'session', 'resource', 'rel')]
     p   = pipe.Pipe(lay.client, lay.remote, pre_stage=pre)
